@@ -511,6 +511,173 @@ func variants(tier string) []variant {
 	return vs
 }
 
+// ---- (iv) errors raised by the emitter in multi-file sets ----
+//
+// Limit-exceeded errors are raised by the emitter, after parsing and type
+// checking, with the path the emitter is working on: they expose a current
+// path that is not restored after a reference to another file has been
+// processed.
+
+func bigVars(n int, typ string, val func(i int) string, use func(name string) string) string {
+	var b strings.Builder
+	b.WriteString("{% var ")
+	for i := 0; i < n; i++ {
+		if i > 0 {
+			b.WriteString(", ")
+		}
+		fmt.Fprintf(&b, "v%d", i)
+	}
+	b.WriteString(" = ")
+	for i := 0; i < n; i++ {
+		if i > 0 {
+			b.WriteString(", ")
+		}
+		b.WriteString(val(i))
+	}
+	b.WriteString(" %}{{ ")
+	for i := 0; i < n; i++ {
+		if i > 0 {
+			b.WriteString(" + ")
+		}
+		b.WriteString(use(fmt.Sprintf("v%d", i)))
+	}
+	b.WriteString(" }}")
+	_ = typ
+	return b.String()
+}
+
+// limitBodies exceed a limit of the emitter inside the function that contains them.
+var limitBodies = []struct{ name, body string }{
+	{"int-registers", bigVars(130, "int", func(i int) string { return fmt.Sprint(i) }, func(n string) string { return n })},
+	{"string-registers", bigVars(130, "string", func(i int) string { return fmt.Sprintf("\"s%d\"", i) }, func(n string) string { return n })},
+	{"general-registers", bigVars(130, "[]int", func(i int) string { return "[]int{1}" }, func(n string) string { return "len(" + n + ")" })},
+	{"string-values", func() string {
+		var b strings.Builder
+		for i := 0; i < 300; i++ {
+			fmt.Fprintf(&b, "{{ \"k%d\" }}", i)
+		}
+		return b.String()
+	}()},
+}
+
+// references to another file: text in the referring file, kind of the file referred to
+var refKinds = []struct{ name, text, kind string }{
+	{"none", "", ""},
+	{"import", `{% import "$" %}`, "import"},
+	{"import-blank", `{% import _ "$" %}`, "import"},
+	{"import-alias", `{% import al "$" %}`, "import"},
+	{"import-for", `{% import "$" for P %}`, "import"},
+	{"render", `{{ render "$" }}`, "render"},
+	{"extends", `{% extends "$" %}`, "extends"}, // last: only as first reference
+}
+
+var emitSites = []string{"index-macro", "index-body", "ref-macro", "ref-body"}
+var emitFillers = []string{"", "é", "\n", "{#\n#}"}
+
+func emitterSet(i uint64) scriggo.Files {
+	m := kit.Mixed(i, uint64(len(emitFillers)), uint64(len(emitFillers)), uint64(len(limitBodies)), uint64(len(emitSites)), uint64(len(refKinds)-1), uint64(len(refKinds)))
+	fill, pre, body, site, ref2, ref1 := emitFillers[m[0]], emitFillers[m[1]], limitBodies[m[2]].body, emitSites[m[3]], refKinds[m[4]], refKinds[m[5]]
+	extending := ref1.kind == "extends"
+	if extending {
+		// an extending file holds only declarations: no text, no body
+		decl := func(f string) string {
+			if f == "é" {
+				return "{# é #}"
+			}
+			return f
+		}
+		fill, pre = decl(fill), decl(pre)
+		if site == "index-body" {
+			site = "index-macro"
+		}
+	}
+	referred := func(kind string, name string, withError bool) string {
+		big := ""
+		switch kind {
+		case "import":
+			// an imported file can only declare: the error is in its macro P
+			if withError {
+				return "{# é\n #}\n{% macro P %}" + body + "{% end %}"
+			}
+			return "{# é\n #}\n{% macro P %}p{% end %}"
+		case "render":
+			if withError && site == "ref-macro" {
+				big = "{% macro P %}" + body + "{% end %}{{ P() }}"
+			} else if withError {
+				big = body
+			}
+			return "é\n" + name + big
+		case "extends":
+			if withError && site == "ref-macro" {
+				big = "{% macro P %}" + body + "{% end %}{{ P() }}"
+			} else if withError {
+				big = body
+			}
+			return "é\n{{ M() }}" + big
+		}
+		return ""
+	}
+	inRef := site == "ref-macro" || site == "ref-body"
+	files := scriggo.Files{}
+	if ref1.kind != "" {
+		files["p.html"] = []byte(referred(ref1.kind, "p", inRef))
+	}
+	if ref2.kind != "" {
+		files["q.html"] = []byte(referred(ref2.kind, "q", false))
+	}
+	r1, r2 := strings.ReplaceAll(ref1.text, "$", "p.html"), strings.ReplaceAll(ref2.text, "$", "q.html")
+	mBody := "x"
+	if site == "index-macro" {
+		mBody = body
+	}
+	var idx strings.Builder
+	if extending {
+		idx.WriteString(r1 + pre)
+		if ref2.kind == "render" {
+			mBody = r2 + mBody // a render is not a declaration: it goes into the macro
+		} else {
+			idx.WriteString(r2)
+		}
+		idx.WriteString(fill + "{% macro M %}" + mBody + "{% end %}")
+	} else {
+		idx.WriteString(pre + r1 + r2 + fill + "{% macro M %}" + mBody + "{% end %}{{ M() }}")
+		if site == "index-body" {
+			idx.WriteString(body)
+		}
+	}
+	files["index.html"] = []byte(idx.String())
+	return files
+}
+
+func emitterSpace() kit.Space {
+	nf, nr := uint64(len(emitFillers)), uint64(len(refKinds))
+	return kit.Space{
+		Name: "3.set.emitter-errors",
+		Size: kit.Product(nf, nf, uint64(len(limitBodies)), uint64(len(emitSites)), nr-1, nr),
+		Eval: func(i uint64) kit.Outcome {
+			files := emitterSet(i)
+			o := buildTemplate("set.emitter-errors", files, "index.html")
+			if o.OK && strings.HasPrefix(o.Class, "BuildError:") {
+				// non-vacuity: how many of the errors come from the emitter
+				_, err := scriggo.BuildTemplate(files, "index.html", nil)
+				if err != nil && strings.Contains(err.Error(), "exceeded") {
+					o.Class = "BuildError:set.emitter-errors(limit exceeded in " + err.(*scriggo.BuildError).Path() + ")"
+				} else {
+					o.Class = "BuildError:set.emitter-errors(parser or checker)"
+				}
+			}
+			return o
+		},
+		Describe: func(i uint64) any {
+			m := map[string]string{}
+			for k, v := range emitterSet(i) {
+				m[k] = string(v)
+			}
+			return m
+		},
+	}
+}
+
 func spaces(tier string) []kit.Space {
 	seeds := gomutants.Seeds()
 	crlf := func(s string) string { return strings.ReplaceAll(s, "\n", "\r\n") }
@@ -535,6 +702,7 @@ func spaces(tier string) []kit.Space {
 			Describe: func(i uint64) any { return v.files(en.At(i)) },
 		})
 	}
+	sps = append(sps, emitterSpace())
 	return sps
 }
 
@@ -543,7 +711,7 @@ func main() {
 		ID:       "C21",
 		Level:    "model_checking",
 		Isolated: true,
-		Rule:     "every first-order C03 mutant of the 30 seed programs (as written; with CRLF line endings for 10 seeds (quick) or all (thorough); with a BOM for 6 seeds); every sequence up to the tier's length of template segments (text, tab, LF, CRLF, BOM, multi-byte rune, single and multi-line comments, valid and invalid {{ }} / {% %} code) in each of the 6 formats and inside <script> and an attribute; of Go statements (comments, multi-byte literals, raw strings, erroneous statements) in a function body and at top level; of raw bytes (C04's alphabet + multi-byte rune, CRLF, BOM, tab) as program and as template of each format; of Go tokens inside {{ }}, {% %}, {%% %%} and a function body; and the same segments as the file reached by render / import / extends in 2 and 3 file sets. A case is non-trivial when the build returns a *scriggo.BuildError (its location is then checked)",
+		Rule:     "every first-order C03 mutant of the 30 seed programs (as written; with CRLF line endings for 10 seeds (quick) or all (thorough); with a BOM for 6 seeds); every sequence up to the tier's length of template segments (text, tab, LF, CRLF, BOM, multi-byte rune, single and multi-line comments, valid and invalid {{ }} / {% %} code) in each of the 6 formats and inside <script> and an attribute; of Go statements (comments, multi-byte literals, raw strings, erroneous statements) in a function body and at top level; of raw bytes (C04's alphabet + multi-byte rune, CRLF, BOM, tab) as program and as template of each format; of Go tokens inside {{ }}, {% %}, {%% %%} and a function body; and the same segments as the file reached by render / import / extends in 2 and 3 file sets; and file sets whose error is raised by the emitter (a limit exceeded: 130 int, string or general registers, 300 string values) in a macro or in the body of the main file after, or of the file reached by, every pair of references among none / import / import _ / import with alias / import for / render / extends, with text, a multi-byte rune, a newline or a multi-line comment before and after the references. A case is non-trivial when the build returns a *scriggo.BuildError (its location is then checked)",
 		Assumptions: []string{
 			"files are read through a recording fs.FS; Path() must be a name the build opened and is looked up verbatim in the file set",
 			"Column counts runes, each invalid UTF-8 byte counting as one rune (utf8.RuneCountInString); Line counts '\\n' bytes",
